@@ -25,7 +25,7 @@ _real_Lock = threading.Lock
 _real_RLock = threading.RLock
 _real_allocate = _thread.allocate_lock
 SIM = [None]
-LOCK_STATS = {'created': 0}
+LOCK_STATS = {'created': 0, 'held': 0}     # 'held': locks currently owned (meaningful single-threaded)
 
 
 class _SimLockBase:
@@ -47,6 +47,8 @@ class _SimLockBase:
                     raise RuntimeError('self-deadlock on non-reentrant lock outside simulation')
                 raise RuntimeError('contended simulated lock outside simulation')
             sim.block_on(self)
+        if self.count == 0:
+            LOCK_STATS['held'] += 1
         self.owner = me
         self.count += 1
         return True
@@ -58,6 +60,7 @@ class _SimLockBase:
             raise RuntimeError('cannot release un-acquired lock')
         self.count -= 1
         if self.count == 0:
+            LOCK_STATS['held'] -= 1
             self.owner = None
             if SIM[0] is not None:
                 SIM[0].unblock(self)
@@ -166,6 +169,9 @@ class SimThread:
         self.waiting_on = None
         self.results = []
         self.shared_yields = 0
+        self.site_counts = {}      # (function name, line) -> times this thread reached that shared-state site
+        self.at_site = None
+        self.strat_done = False
         self.in_call = False
         self.th = threading.Thread(target=self.body, daemon=True, name='sim-%d' % tid)
 
@@ -322,7 +328,15 @@ class Scheduler:
             return top if top is not t else None
         if pol == 'strat':
             a, k = self.strat
-            if t.tid == a and is_shared and t.shared_yields == k:
+            site = self.spec.get('strat_site')
+            if site is not None:
+                hit = t.tid == a and is_shared and t.at_site == (site[0], site[1]) and \
+                    t.site_counts.get(t.at_site) == site[2] and not t.strat_done
+                if hit:
+                    t.strat_done = True
+            else:
+                hit = t.tid == a and is_shared and t.shared_yields == k
+            if hit:
                 self.low -= 1
                 self.prio[a] = self.low
             top = self._top(self.runnable())
@@ -363,6 +377,9 @@ class Scheduler:
         is_shared = co in self.shared
         if is_shared:
             t.shared_yields += 1
+            if lasti < 0:
+                t.at_site = (co.co_name, frame.f_lineno)
+                t.site_counts[t.at_site] = t.site_counts.get(t.at_site, 0) + 1
         nxt = self.choose(t, is_shared)
         if nxt is not None and nxt is not t:
             self.switches += 1
